@@ -233,6 +233,7 @@ ASSUME_HIST = [
 ]
 
 HIST_POOL = {'n_corpus': 60, 'n_synth': 35}
+HIST_POOL_THOROUGH = {'n_corpus': 400, 'n_synth': 250, 'n_ops': 250, 'n_tabled': 150}
 
 
 def c13(tier):
@@ -247,24 +248,28 @@ def c13(tier):
         'through the alias root}; a case is one history; distinct = (family, limit, client configs, op-kind '
         'sequence); non-trivial = an eviction, failed operation, fired I/O fault or restart occurred',
         ASSUME_HIST, _account_hist, extra_cov=_extra_hist,
-        pool_kwargs=None if tier == 'thorough' else dict(HIST_POOL, n_ops=70), design_ref='5.2')
+        pool_kwargs=HIST_POOL_THOROUGH if tier == 'thorough' else dict(HIST_POOL, n_ops=70, n_tabled=20), design_ref='5.2')
 
 
 def c08(tier):
     return runner.check_main(
         'C08', tier, histsim, 'histsim',
-        [('c08', 240, 4000), ('c08-def', 300, 12000, 'defsim')],
+        [('c08-each', -1, -1), ('c08', 240, 4000), ('c08-def', 300, 12000, 'defsim')],
         'exploration',
         'seeded histories biased to compiling clients (cache 0/1/2/8), always containing a pair of messages with the '
         'same descriptor list under table versions where an element differs and messages with marker operators, '
-        'with save -> restart -> load of compiled templates through a simulated disk; every decode/encode/render '
+        'with save -> restart -> load of compiled templates through a simulated disk; plus one fixed short history '
+        'per pool program (compile, execute cached, encode, save/restart/load, execute, encode - family c08-each); '
+        'plus definition/data stream sessions scanned by a compiling and an interpreting decoder in sibling '
+        'processes (c08-def); every decode/encode/render '
         'by a compiling client is compared with the INTERPRETED fresh-process reference; distinct/non-trivial as '
         'for C13 (plus: a template was re-loaded)',
         ASSUME_HIST + ['"compiled == interpreted for every template" is only sampled on the templates of the pool '
                        '(corpus templates incl. marker operators, synthetic ones); deciding it for all templates is '
                        'translation validation, a different technique'],
         _account_hist, extra_cov=_extra_hist,
-        pool_kwargs={'n_ops': 900} if tier == 'thorough' else dict(HIST_POOL, n_ops=110), design_ref='5.3')
+        pool_kwargs=dict(HIST_POOL_THOROUGH, n_ops=500, n_tabled=600) if tier == 'thorough' else dict(HIST_POOL, n_ops=110, n_tabled=60),
+        design_ref='5.3')
 
 
 ASSUME_DEF = [
